@@ -30,6 +30,10 @@ contract(
                       "forall(k, 0, NDeps(some(anc(self.property, j)), self.scenarioIdx), exists(m, 0, len(all_deps), "
                       "all_deps[m] == some(Deps(some(anc(self.property, j)), self.scenarioIdx))[k]))))"),
     ], "locals": {"parent": Opt(Ref("Task")), "parent_deps": List(Ref("Dep"), region="@depends")}}},
+    # where the block appended by `extend` sits (gives the existential in `inherited` its witness without model search)
+    cuts={"parent = parent.parent": [
+        ("appended-block", "len(all_deps) >= len(parent_deps) and forall(k, 0, len(parent_deps), "
+                           "all_deps[len(all_deps) - len(parent_deps) + k] == parent_deps[k])")]},
     locals={"all_deps": local(List(Ref("Dep")), "all_deps"), "own_deps": List(Ref("Dep"), region="@depends"),
             "parent": Opt(Ref("Task"))},
 )
